@@ -112,7 +112,7 @@ pub const SKIP_KNOWN_F3: bool = false; // repaired by fix dc28791: the successor
 /// bounds: undefined behaviour). While true, these four operations only see
 /// AdjacencyMap digraphs with vertex set 0..order. Set to false only on a
 /// tree where the defect is repaired.
-pub const SKIP_KNOWN_F6: bool = true;
+pub const SKIP_KNOWN_F6: bool = false; // repaired by fix 309ee69
 
 /// New finding of this searcher (C11): the rustdoc of
 /// `FilterVertices::filter_vertices` says "Panics if the subgraph has zero
